@@ -83,7 +83,7 @@ prop('C29', prefix=['c29'],
      bounds='<=2 column descriptors, <=2 row records; one setter call from an arbitrary well-formed state; '
             'widths/heights any finite f64 in 0..=1e6 where only carried, 8/13/21/34 where the setter converts units',
      outside='Model-level wrappers (sheet lookup), sequences (covered inductively by the arbitrary pre-state)')
-prop('C30', prefix=['c30'],
+prop('C30', prefix=['c30', 'c29'],
      bounds='style attribute space: number format in {general, 0.00 (built-in), 0.000 (custom), @ (text)}, fill colour or none, alignment or none, symbolic '
             'bold/italic/size/wrap/quote prefix; two styles interned in sequence into the default pools, three for number formats alone; two cells through '
             'Model::set_cell_style / get_style_for_cell',
